@@ -12,6 +12,10 @@
 #include <stdlib.h>
 #include <string.h>
 #include "fi_alloc.h"
+#include <signal.h>
+#include <unistd.h>
+/* per history alarm: a call that never returns (e.g. a lookup in a completely full hash table) ends the process */
+static void fi_on_alarm(int sig) { static const char m[] = "\nHANG: history did not finish within the alarm time\n"; (void)sig; if (write(2, m, sizeof(m) - 1)) {} _exit(7); }
 
 static long long fi_count, fi_fail_at = -1, fi_live, fi_errors; static int fi_rep;
 static int fi_should_fail(void)
@@ -70,7 +74,9 @@ int main(void)
             if (*p) *p++ = 0;
         }
         fi_count = 0; fi_fail_at = -1; fi_rep = 0; fi_live = 0; fi_errors = 0;
+        signal(SIGALRM, fi_on_alarm); alarm(15);
         ro_run_line(tok, (int)n);
+        alarm(0);
     }
     free(tok);
     return 0;
